@@ -311,7 +311,7 @@ def check_generator(pva, w_rel, acc_n, with_altitude, dt=0.02, signals=None, mas
     return fails, dict(rat_F=rat1, rat_FN=rat2, rat_B=ratB)
 
 
-def check_filter_step(pva, w_rel, acc_n, with_altitude, T, dt_imu=0.02, out=None):
+def check_filter_step(pva, w_rel, acc_n, with_altitude, T, dt_imu=0.02, out=None, output_variant=True):
     """(B): finite differences over one or several filter steps vs error_model.propagate_errors on the true
     trajectory.  T: a filter step, or a list of (generally UNEQUAL) consecutive filter steps, each within 0.1..2 s and
     a multiple of dt_imu; the model trajectory has one row per filter epoch, so propagate_errors must use each
@@ -426,7 +426,84 @@ def check_filter_step(pva, w_rel, acc_n, with_altitude, T, dt_imu=0.02, out=None
         fails.append(("propagate_errors' response to constant sensor errors over the filter step(s) disagrees with "
                       "the integrator's", dict(row=int(i), col=int(k), measured=float(S[i, k]), model=float(SM[i, k]),
                                                tol=float(tolS[i, k]), T=Ts)))
-    return fails, dict(rat_Phi=rat, rat_S=ratS)
+    ratios = dict(rat_Phi=rat, rat_S=ratS)
+    if output_variant:
+        fo, ro = output_variant_check(pva, true, traj, incs_of(w, f, dt, n), with_altitude, em, Phi, PhiM, tol, floor,
+                                      n, Ts)
+        fails += fo
+        ratios.update(ro)
+    return fails, ratios
+
+
+ERR_COLS = ['north', 'east', 'down', 'VN', 'VE', 'VD', 'roll', 'pitch', 'heading']
+H_OUT = np.array([100.0, 100.0, 100.0, 1.0, 1.0, 1.0, 0.01, 0.01, 0.01])       # m, m/s, deg
+EPS_OUT = np.array([3e-9, 3e-9, 3e-9, 3e-13, 3e-13, 3e-13, 1e-12, 1e-12, 1e-12])
+
+
+def incs_of(w, f, dt, n):
+    return increments(w, f, dt, n)
+
+
+def output_variant_check(pva, true, traj, incs, with_altitude, em, Phi, PhiM, tol_int, floor_int, n, Ts):
+    """(C) the same filter step(s) with the initial error given in OUTPUT coordinates (north/east/down m, NED
+    velocity m/s, roll/pitch/heading deg): the real Integrator starts from sim.perturb_pva(pva, e), the final
+    difference is transform.compute_state_difference(perturbed run, nominal run).
+      C1: against propagate_errors' trajectory_error (= transform_to_output(final) @ x_final with
+          x0 = transform_to_internal(initial) @ e), tolerance = the internal majorant of (B) mapped through
+          |T_out| . |T_int|;
+      C2: against T_out(final) @ (measured internal transition of (B)) @ T_int(initial): only the output/internal
+          transforms are under test here, so the tolerance is rounding floors (x100) plus a 5e-4 relative allowance
+          for the second-order terms of the finite differences.
+    In the no-altitude mode the 'down' and 'VD' directions are outside the 7-state model and are skipped."""
+    from pyins import sim, transform, error_model
+    ns = 9 if with_altitude else 7
+    p_end = true.iloc[-1]
+    cols = [k for k in range(9) if with_altitude or k not in (2, 5)]
+    Tint0 = np.asarray(em.transform_to_internal(traj.iloc[0]), dtype=float)
+    Tout1 = np.asarray(em.transform_to_output(traj.iloc[-1]), dtype=float)
+    Pm = np.zeros((9, 9))
+    Pmod = np.zeros((9, 9))
+    for k in cols:
+        ds = []
+        for sg in (+1, -1):
+            e = pd.Series(np.zeros(9), index=ERR_COLS)
+            e.iloc[k] = sg * H_OUT[k]
+            p0 = sim.perturb_pva(pva, e)
+            fin = run(p0, incs, with_altitude).iloc[-1]
+            ds.append(transform.compute_state_difference(fin, p_end).values.astype(float))
+        Pm[:, k] = (ds[0] - ds[1]) / (2 * H_OUT[k])
+        e = pd.Series(np.zeros(9), index=ERR_COLS)
+        e.iloc[k] = 1.0
+        terr, _ = error_model.propagate_errors(traj, e, with_altitude=with_altitude)
+        Pmod[:, k] = terr.values[-1]
+    Ppred = Tout1 @ Phi @ Tint0
+    aT1, aT0 = np.abs(Tout1), np.abs(Tint0)
+    floor_out = 100 * (n + 1) * EPS_OUT[:, None] / H_OUT[None, :] + aT1 @ floor_int @ aT0
+    tol2 = 5e-4 * (aT1 @ np.abs(Phi) @ aT0) + floor_out
+    tol1 = aT1 @ tol_int @ aT0 + tol2
+    fails = []
+    sel = np.array(cols)
+    d1 = np.abs(Pm - Pmod)[:, sel]
+    d2 = np.abs(Pm - Ppred)[:, sel]
+    r1 = d1 / tol1[:, sel]
+    r2 = d2 / tol2[:, sel]
+    if r2.max() > 1:
+        i, kk = np.unravel_index(np.argmax(r2), r2.shape)
+        k = int(sel[kk])
+        fails.append(("error growth in OUTPUT coordinates (sim.perturb_pva -> Integrator -> compute_state_difference) "
+                      "disagrees with transform_to_output(final) @ measured internal transition @ "
+                      "transform_to_internal(initial)",
+                      dict(row=ERR_COLS[i], col=ERR_COLS[k], measured=float(Pm[i, k]), predicted=float(Ppred[i, k]),
+                           tol=float(tol2[i, k]), T=Ts)))
+    if r1.max() > 1:
+        i, kk = np.unravel_index(np.argmax(r1), r1.shape)
+        k = int(sel[kk])
+        fails.append(("propagate_errors' trajectory_error for an initial error given in OUTPUT coordinates disagrees "
+                      "with the integrator's measured error growth (compute_state_difference of perturbed and "
+                      "nominal runs)",
+                      dict(row=ERR_COLS[i], col=ERR_COLS[k], measured=float(Pm[i, k]), model=float(Pmod[i, k]),
+                           tol=float(tol1[i, k]), T=Ts)))
+    return fails, dict(rat_out_model=float(r1.max()), rat_out_transforms=float(r2.max()))
 
 
 def coordinates_tie(pva, rng):
@@ -451,7 +528,7 @@ def coordinates_tie(pva, rng):
 def numeric_statements(r, n_states, n_filter, seed_shift=0):
     rng = random.Random(r.seed + 4 + seed_shift)
     fails = []
-    worst = dict(rat_F=0.0, rat_FN=0.0, rat_B=0.0, rat_Phi=0.0, rat_S=0.0)
+    worst = dict(rat_F=0.0, rat_FN=0.0, rat_B=0.0, rat_Phi=0.0, rat_S=0.0, rat_out_model=0.0, rat_out_transforms=0.0)
     dist = dict(modes={True: 0, False: 0}, lat_south=0, lat_north=0, fast=0, steep=0, filter_steps=[])
     for i in range(n_states):
         with_alt = (i % 2 == 0)
